@@ -552,14 +552,12 @@ Notation req_path := (req_path key_of).
 Notation run_events := (run_events key_of compile).
 Notation step_event := (step_event key_of compile).
 
-(* every entry file has recorded bytes *)
-Definition fcont (w : world) : Prop :=
-  forall k, In k (keys (files (w_store w))) -> In k (keys (w_content w)).
-
-Definition winv (w : world) : Prop := sinv (w_store w) /\ fcont w.
+(* between two requests the store is quiet and consistent (the recorded bytes [w_content] are a ghost: a key
+   without recorded bytes is a file that cannot be read back as an entry) *)
+Definition winv (w : world) : Prop := sinv (w_store w).
 
 Lemma winv_empty c : winv (empty_world c).
-Proof. split; [apply sinv_empty | intros k []]. Qed.
+Proof. apply sinv_empty. Qed.
 
 (* what a request does, branch by branch *)
 Inductive req_shape (w : world) (r : request) (w' : world) (o : outcome) : Prop :=
@@ -640,20 +638,14 @@ Qed.
 Lemma do_request_winv w r w' o : winv w -> do_request w r = (w', o) ->
   winv w' /\ cap (w_store w') = cap (w_store w).
 Proof.
-  intros [Hs Hc] H. apply do_request_shape in H. unfold winv, fcont in *.
+  intros Hs H. apply do_request_shape in H. unfold winv in *.
   destruct H as [? ? E1 E2|s1 res t e ok ws1 G ? ? ? E1 E2|s1 res t G ? E1 E2|s1 res t e s2 stored rerr G ? ? P E1 E2];
-    rewrite E1, E2.
-  - split; [split; [exact Hs|exact Hc]|reflexivity].
-  - destruct (get_spec _ _ _ _ _ Hs G) as (Hs1 & Hc1 & Hi1 & Hf1 & _).
-    split; [split; [exact Hs1|]|exact Hc1]. intros k Hk. apply Hc, Hf1, Hk.
-  - destruct (get_spec _ _ _ _ _ Hs G) as (Hs1 & Hc1 & Hi1 & Hf1 & _).
-    split; [split; [exact Hs1|]|exact Hc1]. intros k Hk. apply Hc, Hf1, Hk.
-  - destruct (get_spec _ _ _ _ _ Hs G) as (Hs1 & Hc1 & Hi1 & Hf1 & _).
-    destruct (put_spec _ _ _ _ _ Hs1 P) as (Hs2 & Hc2 & _ & Hf2 & _).
-    split; [split; [exact Hs2|]|congruence]. intros k Hk.
-    destruct (Hf2 _ Hk) as [[-> ->]|Hk1].
-    + apply keys_ains. auto.
-    + apply Hf1, Hc in Hk1. destruct stored; [apply keys_ains; auto | exact Hk1].
+    rewrite E1.
+  - split; [exact Hs|reflexivity].
+  - destruct (get_spec _ _ _ _ _ Hs G) as (Hs1 & Hc1 & _). split; [exact Hs1|exact Hc1].
+  - destruct (get_spec _ _ _ _ _ Hs G) as (Hs1 & Hc1 & _). split; [exact Hs1|exact Hc1].
+  - destruct (get_spec _ _ _ _ _ Hs G) as (Hs1 & Hc1 & _).
+    destruct (put_spec _ _ _ _ _ Hs1 P) as (Hs2 & Hc2 & _). split; [exact Hs2|congruence].
 Qed.
 
 (* a request on another cache path leaves the recorded bytes of k alone *)
@@ -666,15 +658,24 @@ Proof.
   destruct stored; auto. apply alookup_ains_neq. congruence.
 Qed.
 
+Lemma damage_winv w p sz : winv w -> winv (damage w p sz) /\ cap (w_store (damage w p sz)) = cap (w_store w).
+Proof.
+  unfold winv, damage. intros (Hi & Hq & Hx & Hs). destruct (alookup p (files (w_store w))) eqn:F.
+  2:{ split; [split; [exact Hi|split; [exact Hq|split; [exact Hx|exact Hs]]]|reflexivity]. }
+  simpl. split; [|reflexivity]. split; [apply inv_tick, inv_set_files, Hi|split; [exact Hq|split]].
+  - intros k Hk. simpl in *. apply keys_ains. right. apply Hx, Hk.
+  - unfold fsorted. simpl. apply ksorted_ains, Hs.
+Qed.
+
 Lemma step_event_winv w e : winv w ->
   winv (fst (step_event w e)) /\ cap (w_store (fst (step_event w e))) = cap (w_store w).
 Proof.
-  intros Hw. destruct e as [r|p| |]; simpl.
+  intros Hw. destruct e as [r|p| | |p sz]; simpl.
   - destruct (do_request w r) as [w' o] eqn:D. simpl. eapply do_request_winv; eauto.
   - split; [exact Hw | reflexivity].
-  - destruct Hw as [Hs Hc]. destruct (reopen_spec _ Hs) as (Hs' & Hc' & Hf').
-    split; [split; [exact Hs'|]|exact Hc']. intros k Hk. simpl in *. apply Hc, Hf', Hk.
+  - destruct (reopen_spec _ Hw) as (Hs' & Hc' & Hf'). split; [exact Hs'|exact Hc'].
   - split; [exact Hw | reflexivity].
+  - apply damage_winv, Hw.
 Qed.
 
 Lemma run_events_winv h : forall w, winv w ->
@@ -684,31 +685,29 @@ Proof.
   destruct (step_event_winv w e Hw) as [H1 H2]. destruct (IH _ H1) as [H3 H4]. split; [exact H3|congruence].
 Qed.
 
-Lemma unrelated_cons_req r r' h :
-  unrelated key_of r (EReq r' :: h) = true -> req_path r' <> req_path r /\ unrelated key_of r h = true.
-Proof.
-  unfold unrelated. simpl. intros H. apply andb_true_iff in H as [H1 H2]. split; [|exact H2].
-  apply negb_true_iff in H1. intros E. rewrite E, bytes_eqb_refl in H1. discriminate.
-Qed.
-
 Lemma run_events_frame h : forall w k,
   (forall r, In r (requests_of h) -> req_path r <> k) ->
+  (forall p, In p (damaged_of h) -> p <> k) ->
   alookup k (w_content (run_events w h)) = alookup k (w_content w).
 Proof.
-  unfold HitModel.run_events. induction h as [|e h IH]; intros w k Hu; simpl; auto.
-  destruct e as [r|p| |]; simpl in *.
-  - destruct (do_request w r) as [w' o] eqn:D. simpl. rewrite IH by (intros; apply Hu; auto).
+  unfold HitModel.run_events. induction h as [|e h IH]; intros w k Hu Hd; simpl; auto.
+  destruct e as [r|p| | |p sz]; simpl in *.
+  - destruct (do_request w r) as [w' o] eqn:D. simpl. rewrite IH by (intros; auto).
     eapply do_request_frame; eauto.
-  - rewrite IH by exact Hu. reflexivity.
-  - rewrite IH by exact Hu. reflexivity.
-  - apply IH, Hu.
+  - rewrite IH by auto. reflexivity.
+  - rewrite IH by auto. reflexivity.
+  - apply IH; auto.
+  - rewrite IH by auto. unfold damage. destruct (alookup p (files (w_store w))); [|reflexivity].
+    simpl. apply alookup_aremove_neq. intros ->. apply (Hd p); auto.
 Qed.
 
 Lemma unrelated_spec r h : unrelated key_of r h = true ->
-  forall r', In r' (requests_of h) -> req_path r' <> req_path r.
+  (forall r', In r' (requests_of h) -> req_path r' <> req_path r) /\
+  (forall p, In p (damaged_of h) -> p <> req_path r).
 Proof.
-  unfold unrelated. rewrite forallb_forall. intros H r' Hin E. apply H in Hin.
-  rewrite E, bytes_eqb_refl in Hin. discriminate.
+  unfold unrelated. intros H. apply andb_true_iff in H as [H1 H2]. rewrite forallb_forall in H1, H2. split.
+  - intros r' Hin E. apply H1 in Hin. rewrite E, bytes_eqb_refl in Hin. discriminate.
+  - intros p Hin E. apply H2 in Hin. rewrite E, bytes_eqb_refl in Hin. discriminate.
 Qed.
 
 (* ====================================================================== *)
@@ -725,7 +724,7 @@ Lemma request_hits w r w' o e : winv w ->
   oc_kind o = (if fst (restore e (rq_outputs r) (w_ws w)) then KHit else KFatal) /\
   w_ws w' = snd (restore e (rq_outputs r) (w_ws w)).
 Proof.
-  intros [Hs Hc] Hin Hct Hpre H. apply do_request_shape in H.
+  intros Hs Hin Hct Hpre H. unfold winv in Hs. apply do_request_shape in H.
   destruct H as [P1 P2|s1 res t e' ok ws1 G Hr Hct' R E1 E2 E3 E4 K1 K2|s1 res t G Hno|s1 res t e' s2 stored rerr G Hno].
   - destruct Hpre; congruence.
   - rewrite Hct in Hct'. inversion Hct'; subst e'. rewrite R. simpl. auto.
@@ -740,7 +739,7 @@ Lemma request_stored w r w' o : winv w -> do_request w r = (w', o) -> oc_stored 
   In (req_path r) (keys (index (w_store w'))) /\
   exists e, alookup (req_path r) (w_content w') = Some e /\ collect (w_ws w') (rq_outputs r) = Some e.
 Proof.
-  intros [Hs Hc] H Hst. apply do_request_shape in H.
+  intros Hs H Hst. unfold winv in Hs. apply do_request_shape in H.
   destruct H as [? ? ? ? ? ? ? K|s1 res t e ok ws1 G ? ? ? ? ? ? ? ? ? K|s1 res t G ? ? ? ? ? K|s1 res t e s2 stored rerr G Hno C P E1 E2 E3 K1 K2 K3];
     try congruence.
   subst stored.
@@ -771,7 +770,7 @@ Proof.
   assert (Hw2 : winv w2) by (apply run_events_winv, Hw1).
   assert (Hp : req_path r1 = req_path r0) by (unfold HitModel.req_path; rewrite Hfp; reflexivity).
   assert (Hct2 : alookup (req_path r1) (w_content w2) = Some e0).
-  { rewrite Hp. unfold w2. rewrite run_events_frame; [exact Hct | apply unrelated_spec, Hun]. }
+  { rewrite Hp. unfold w2. destruct (unrelated_spec _ _ Hun) as [U1 U2]. rewrite run_events_frame; auto. }
   assert (Hin2 : In (req_path r1) (keys (index (w_store w2)))).
   { rewrite Hp. apply amem_In. exact Hca. }
   destruct (request_hits _ _ _ _ _ Hw2 Hin2 Hct2 Hpre D1) as (K1 & K2 & K3 & K4).
@@ -794,8 +793,8 @@ Notation event_fits := (event_fits compile).
 Lemma step_event_keeps w e : winv w -> event_fits w e = true ->
   forall k, In k (keys (index (w_store w))) -> In k (keys (index (w_store (fst (step_event w e))))).
 Proof.
-  intros Hw Hf k Hk. destruct e as [r|p| |]; simpl in *; auto.
-  - destruct (do_request w r) as [w' o] eqn:D. simpl. destruct Hw as [Hs Hc].
+  intros Hw Hf k Hk. destruct e as [r|p| | |p sz]; simpl in *; auto.
+  - destruct (do_request w r) as [w' o] eqn:D. simpl. pose proof Hw as Hs. unfold winv in Hs.
     apply do_request_shape in D.
     destruct D as [? ? E1|s1 res t e ok ws1 G ? ? ? E1|s1 res t G ? E1|s1 res t e s2 stored rerr G ? ? P E1]; rewrite E1.
     + exact Hk.
@@ -804,11 +803,12 @@ Proof.
     + destruct (get_spec _ _ _ _ _ Hs G) as (Hs1 & Hc1 & Hi1 & _).
       eapply put_noevict; [exact Hs1 | | exact P | apply Hi1, Hk].
       rewrite (get_measure _ _ _ _ _ G), Hc1. lia.
-  - apply andb_true_iff in Hf as [F1 F2]. destruct Hw as [(Hi & Hq & Hx & Hs) Hc].
+  - apply andb_true_iff in Hf as [F1 F2]. destruct Hw as (Hi & Hq & Hx & Hs).
     destruct (reopen_all (w_store w) (cap (w_store w))) as (A & _); auto; [|lia|].
     + apply ksorted_NoDup, Hs.
     + rewrite A, keys_proj.
       eapply Permutation_in; [apply Permutation_sym, keys_perm, sort_mtime_perm | apply Hx, Hk].
+  - unfold damage. destruct (alookup p (files (w_store w))); simpl; exact Hk.
 Qed.
 
 Lemma run_events_keeps h : forall w, winv w -> fits w h = true ->
@@ -1107,7 +1107,7 @@ Theorem restart_preserves c0 h0 :
 Proof.
   intros w Ht Hsz.
   assert (Hw : winv w) by (apply run_events_winv, winv_empty).
-  destruct Hw as [(Hi & Hq & Hx & Hs) Hc].
+  destruct Hw as (Hi & Hq & Hx & Hs).
   destruct (reopen_keeps_everything (w_store w) (cap (w_store w))) as (A & B & C & D); auto.
   { apply ksorted_NoDup, Hs. }
   split; [exact B|split; [reflexivity|split; [exact D|]]].
@@ -1115,6 +1115,88 @@ Proof.
 Qed.
 
 End Restart.
+
+(* ====================================================================== *)
+(* H. restoring on any mount layout; a damaged entry is replaced           *)
+(* ====================================================================== *)
+
+(* the staging file lives in the directory of the output, so the rename never crosses a mount: whatever
+   directories are mounted where, the mount-aware restore is the plain one *)
+Theorem restore_any_mount_layout (mnt : bytes -> N) e outs : forall ws,
+  restore_mounted mnt e outs ws = restore e outs ws.
+Proof.
+  induction outs as [|o r IH]; intros ws; simpl; auto.
+  destruct (alookup (o_role o) e).
+  - unfold stage_dir. rewrite N.eqb_refl. apply IH.
+  - destruct (o_optional o); auto.
+Qed.
+
+(* DiskCache::put of an entry that fits the cache succeeds — also over a key that is already indexed *)
+Lemma put_succeeds s k sz s' b : sinv s -> sz <= cap s -> put s k sz = (s', b) -> b = true.
+Proof.
+  intros (Hi & Hq & Hx & Hs) Hfit P. pose proof (quiet_pending s Hi Hq) as Hp0. unfold put in P.
+  destruct (prepare_add s k sz) as [s1 r1] eqn:PA.
+  pose proof (inv_prepare_add _ _ _ _ _ Hi PA) as Hi1.
+  unfold prepare_add in PA. destruct (make_space s sz) as [ok sa] eqn:MS.
+  pose proof MS as MS2. apply inv_make_space in MS2 as [Hia Hba]; [|exact Hi].
+  apply make_space_spec in MS as (pre & idx' & m' & -> & Hidx & Hm' & _ & Hok & _).
+  pose proof Hi as [(Hm & _ & Hnd & _) _].
+  assert (ok = true) by (apply Hok; [exact Hm | lia]). subst ok.
+  inversion PA; subst; clear PA. rewrite Hq in P, Hi1. simpl in P, Hi1.
+  unfold write_tmp in P. simpl in P. rewrite N.eqb_refl in P. simpl in P.
+  revert P. destruct (commit _ _) as [[s3 r3] t3] eqn:C. intros P.
+  match type of C with commit ?S _ = _ => assert (Hi2 : inv S) end.
+  { eapply inv_write_tmp with (h := next_h s) (m := sz); [exact Hi1|].
+    unfold write_tmp. simpl. rewrite N.eqb_refl. reflexivity. }
+  pose proof (inv_release _ (next_h s) (Build_handle k sz (0 + sz)) Hi2) as Hir.
+  unfold commit in C. simpl in C, Hir. rewrite N.eqb_refl in C, Hir.
+  specialize (Hir eq_refl). simpl in C, Hir. try rewrite N.eqb_refl in C. try rewrite N.eqb_refl in Hir.
+  simpl in C, Hir.
+  revert C. destruct (make_space _ _) as [ok2 sb] eqn:MS2. intros C.
+  apply make_space_spec in MS2 as (pre2 & idx2 & m2 & -> & _ & _ & _ & Hok2 & _).
+  assert (ok2 = true).
+  { apply Hok2; [destruct Hir as [(Hmr & _) _]; exact Hmr | simpl; lia]. }
+  subst ok2. inversion C; subst; clear C. inversion P; reflexivity.
+Qed.
+
+Section Heal.
+
+Variable key_of : fingerprint -> key.
+Variable compile : request -> N -> cresult.
+
+Theorem damaged_entry_replaced c0 h0 r sz w1 o :
+  let w := damage (run_events key_of compile (empty_world c0) h0) (req_path key_of r) sz in
+  do_request key_of compile w r = (w1, o) ->
+  oc_kind o <> KHit /\
+  (forall rerr, oc_kind o = KMiss rerr -> cr_size (compile r (w_compiles w)) <= cap (w_store w) ->
+     oc_stored o = true) /\
+  (oc_stored o = true ->
+     In (req_path key_of r) (keys (index (w_store w1))) /\ alookup (req_path key_of r) (w_content w1) <> None).
+Proof.
+  intros w D.
+  assert (Hw0 : winv (run_events key_of compile (empty_world c0) h0)) by (apply run_events_winv, winv_empty).
+  assert (Hw : winv w) by (apply damage_winv, Hw0).
+  split; [|split].
+  - intros K. pose proof D as D'. apply do_request_shape in D'.
+    destruct D' as [? ? ? ? ? K1|s1 res t e ok ws1 G Hr Hct|s1 res t G ? ? ? ? ? ? K1|s1 res t e s2 stored rerr G ? ? ? ? ? ? K1];
+      try (rewrite K in K1; try discriminate; destruct K1 as [K1|[K1|K1]]; discriminate).
+    unfold w, damage in Hct, G. 
+    destruct (alookup (req_path key_of r) (files (w_store (run_events key_of compile (empty_world c0) h0)))) eqn:F.
+    + simpl in Hct. rewrite alookup_aremove_eq in Hct. discriminate.
+    + destruct (get_spec _ _ _ _ _ Hw0 G) as (_ & _ & _ & _ & Hres).
+      apply Hres in Hr. destruct Hw0 as (_ & _ & Hx & _). apply Hx, In_keys_alookup in Hr. congruence.
+  - intros rerr K Hfit. pose proof D as D'. apply do_request_shape in D'.
+    destruct D' as [? ? ? ? ? K1|s1 res t e ok ws1 G ? ? ? ? ? ? ? K1|s1 res t G ? ? ? ? ? ? K1|s1 res t e s2 stored rerr' G ? ? P ? ? ? K1 ? K3].
+    + rewrite K in K1; discriminate.
+    + rewrite K in K1. destruct ok; discriminate.
+    + rewrite K in K1. destruct K1 as [K1|[K1|K1]]; discriminate.
+    + rewrite K3. destruct (get_spec _ _ _ _ _ Hw G) as (Hs1 & Hc1 & _).
+      eapply put_succeeds; [exact Hs1 | | exact P]. rewrite Hc1. exact Hfit.
+  - intros St. destruct (request_stored key_of compile _ _ _ _ Hw D St) as (Hin & e & He & _).
+    split; [exact Hin | congruence].
+Qed.
+
+End Heal.
 
 (* ====================================================================== *)
 (* concrete instances used by the non-vacuity examples of Properties/C03.v *)
@@ -1156,5 +1238,11 @@ Definition rcov : request :=
      rq_args := [AProfile [45; 102]; AOutput a_o];
      rq_env := []; rq_env_deps := []; rq_cwd := [47; 119]; rq_inputs := [11];
      rq_outputs := [out obj_role a_o]; rq_ppkey := None |}.
+
+(* r0's entry gets damaged after it was stored; then r0 again, twice *)
+Definition wd (c : N) : world := damage (w1 c) (req_path kof r0) 200.
+Definition w_heal (c : N) : world := fst (do_request kof oracle (wd c) r0).
+Definition o_heal (c : N) : outcome := snd (do_request kof oracle (wd c) r0).
+Definition o_again (c : N) : outcome := snd (do_request kof oracle (w_heal c) r0).
 
 End C03Example.
